@@ -67,7 +67,7 @@ pub mod parser {
         }
 
         if let Some(padding) = parse_padding(packet) {
-            if padding == 0 {
+            if padding == 0 || padding as usize > packet.len() - P::MIN_PACKET_LEN {
                 return Err(RtcpParseError::InvalidPadding);
             }
         }
